@@ -117,6 +117,13 @@ type script struct {
 	MW  bool
 	Ops []op
 	Obs *reqObs
+	// Outer: a handler in front of the session middleware uses the store API on the same store
+	// (Store.Get, Pre ops, c.Next() through the middleware and the inner script, Post ops,
+	// Release). OuterObs: Start = the Store.Get, Ops = Pre then Post.
+	Outer    bool
+	Pre      []op
+	Post     []op
+	OuterObs *reqObs
 }
 
 // issuer is the harness KeyGenerator: every id the server generates is recorded.
@@ -149,8 +156,38 @@ func runScript(c fiber.Ctx, st *fsess.Store, sc *script, iss issuer) {
 		sess = s
 	}
 	ob.Start.View = snap(sess)
+	execOps(c, st, m, &sess, sc.Ops, ob, iss)
+	if m == nil && sess != nil {
+		sess.Release() // the documented `defer sess.Release()`
+	}
+}
+
+// runOuter is the handler in front of the session middleware: store API around c.Next().
+func runOuter(c fiber.Ctx, st *fsess.Store, sc *script, iss issuer) error {
+	ob := sc.OuterObs
+	sess, err := st.Get(c)
+	ob.Start.IssHi = iss.count()
+	if err != nil {
+		ob.Start.Err = err.Error()
+		ob.Fatal = "Store.Get failed: " + err.Error()
+		return c.Next()
+	}
+	ob.Start.View = snap(sess)
+	execOps(c, st, nil, &sess, sc.Pre, ob, iss)
+	nextErr := c.Next()
+	execOps(c, st, nil, &sess, sc.Post, ob, iss)
+	if sess != nil {
+		sess.Release()
+	}
+	return nextErr
+}
+
+// execOps runs ops on the session held (m != nil: through the middleware object).
+func execOps(c fiber.Ctx, st *fsess.Store, m *fsess.Middleware, psess **fsess.Session, ops []op, ob *reqObs, iss issuer) {
+	sess := *psess
+	defer func() { *psess = sess }()
 	destroyed := false
-	for _, o := range sc.Ops {
+	for _, o := range ops {
 		var r opObs
 		r.IssLo = iss.count()
 		needs := o.K != "byid" && o.K != "sdel" && o.K != "sreset" && o.K != "reget" && o.K != "sget"
@@ -275,7 +312,4 @@ func runScript(c fiber.Ctx, st *fsess.Store, sc *script, iss issuer) {
 		ob.Ops = append(ob.Ops, r)
 	}
 	_ = destroyed
-	if m == nil && sess != nil {
-		sess.Release() // the documented `defer sess.Release()`
-	}
 }
